@@ -259,9 +259,14 @@ def extract_branch_results_with_internals(net, branch_results, table_name,
             sections_table = np.zeros_like(sections)
             sections_table[placement_table] = sections
             indices_last_section = (np.cumsum(sections_table) - 1).astype(int)[pt]
+            # the outlet of an element is its last section in flow direction: if the flow runs against the
+            # orientation of the element, that is the first section in the order of the pit
+            indices_first_section = (np.cumsum(sections_table) - sections_table).astype(int)[pt]
+            flow_reversed = branch_pit[f:t, FROM_NODE_T_SWITCHED][indices_last_section].astype(bool)
+            indices_outlet_section = np.where(flow_reversed, indices_first_section, indices_last_section)
 
             for i, (res_name, entry) in enumerate(res_branch):
-                res_table[res_name].values[pt] = branch_results[entry][f:t][indices_last_section]
+                res_table[res_name].values[pt] = branch_results[entry][f:t][indices_outlet_section]
 
 
 def extract_branch_results_without_internals(net, branch_results, required_results_hydraulic,
